@@ -792,10 +792,54 @@ func (h *History) numTemplate(t *rapid.T, ti int, name string) {
 	}
 }
 
+// giantMerge: on a universe of giant keys (path lengths around 2^8 and 2^16) half of the histories
+// start with a scripted shape in which a node4 with a very long path is merged into its only
+// remaining inner child, or takes over the very long path of that child - the places where a path
+// length passes through narrower arithmetic.
+func (h *History) giantMerge(t *rapid.T) {
+	for ti, u := range h.unis {
+		if u.profile != "giant" || u.stem == nil || drawInt(t, 0, 1, "gm") != 0 {
+			continue
+		}
+		x := u.stem
+		cat := func(parts ...string) []byte {
+			var out []byte
+			for _, p := range parts {
+				if p == "X" {
+					out = append(out, x...)
+				} else {
+					out = append(out, p...)
+				}
+			}
+			return out
+		}
+		var keys [][]byte
+		var victim []byte
+		switch drawInt(t, 0, 2, "gmshape") {
+		case 0: // the collapsing node4 carries the long path
+			keys, victim = [][]byte{cat("X", "a"), cat("X", "ab"), cat("X", "b")}, cat("X", "b")
+		case 1: // the surviving inner child carries the long path
+			keys, victim = [][]byte{cat("c", "X", "a"), cat("c", "X", "b"), []byte("d")}, []byte("d")
+		default: // both do
+			keys, victim = [][]byte{cat("X", "m", "X", "a"), cat("X", "m", "X", "b"), cat("X", "z")}, cat("X", "z")
+		}
+		for _, k := range keys {
+			h.emit(t, Op{T: ti, Op: "insert", K: k, V: h.value(), Note: "tpl:giant-merge"})
+		}
+		h.emit(t, Op{T: ti, Op: "audit", Note: "tpl:peak"})
+		h.emit(t, Op{T: ti, Op: "delete", K: victim, Note: "tpl:giant-merge"})
+		h.emit(t, Op{T: ti, Op: "audit", Note: "tpl:trough"})
+		for _, k := range keys {
+			h.emit(t, Op{T: ti, Op: "search", K: k, Note: "tpl:giant-merge"})
+		}
+	}
+}
+
 // RunHistory is the rapid property body shared by the history-shaped checks.
 func RunHistory(t *rapid.T, spec *PropSpec) {
 	h := newHistory(t, spec)
 	h.runTemplate(t)
+	h.giantMerge(t)
 	t.Repeat(map[string]func(*rapid.T){"step": h.step})
 	h.finish(t)
 }
